@@ -72,7 +72,7 @@ fn dominated(c: &Case, w: usize) -> bool {
     })
 }
 
-fn observe(c: &Case, env: &mut mcx::Env, alpha: Alphabet) -> SelObs {
+pub fn observe(c: &Case, env: &mut mcx::Env, alpha: Alphabet) -> SelObs {
     let sel = Lexicase::new(c.cases);
     if c.errors {
         let pop = mk_pop_matrix_err(&c.rows);
